@@ -9,11 +9,15 @@ package main
 import (
 	"encoding/json"
 	"fmt"
+
+	"k8s.io/apimachinery/pkg/apis/meta/v1/unstructured"
 )
 
 type c01Obs struct {
 	Rounds    []xwRoundObs `json:"rounds"`
 	Quiescent bool         `json:"-"` // last round changed no object (all resourceVersions equal); monitor only
+	Taken     int          `json:"-"` // taken candidates the name generator drew (class only)
+	Stale     int          `json:"-"` // rounds whose first read of the XR was outdated (class only)
 }
 
 // "e" is of kind KA2: the same Kind name as KA, served by another API group
@@ -120,9 +124,75 @@ func c01Gen(r *Rng) xwScn {
 	return s
 }
 
+// c01GenX adds the C01-only dimension to an XR-world scenario: rounds in which the name generator
+// first draws candidates that are already taken (0..11 of them per generated name; the real
+// generator gives up after maxTries = 10 probes).
+func c01GenX(r *Rng) c01Scn {
+	s := c01Scn{xwScn: c01Gen(r)}
+	if s.Mode == "pt" && r.Chance(1, 2) {
+		// lagging first read of the XR in some of the rounds before the trailing fault-free ones
+		s.StaleSel = make([]bool, len(s.Rounds))
+		for i := 1; i < len(s.Rounds)-2; i++ {
+			s.StaleSel[i] = r.Chance(2, 3)
+		}
+	}
+	if !r.Chance(2, 5) {
+		return s
+	}
+	n := len(s.Rounds) - 3 // the trailing fault-free rounds generate no new names once settled
+	if n < 1 {
+		n = 1
+	}
+	// names taken by somebody else's objects (another XR with the same name prefix): unreferenced,
+	// controlled by another owner, visible in the cache
+	for _, k := range []string{"KA", "KB", "KA2"} {
+		if k == "KA2" && !r.Chance(1, 2) {
+			continue
+		}
+		rn := "e"
+		if k != "KA2" {
+			rn = Pick(r, []string{"a", "c"})
+			if k == "KB" {
+				rn = Pick(r, []string{"b", "d"})
+			}
+		}
+		s.Objs = append(s.Objs, xwObj{Kind: k, Name: "xr-taken" + k, Annot: rn, Ctrl: "other", Content: r.Intn(3)})
+	}
+	s.Collide = make([][]int, len(s.Rounds))
+	for i := 0; i < n; i++ {
+		if !r.Chance(2, 3) {
+			continue
+		}
+		k := r.Range(1, 3)
+		for j := 0; j < k; j++ {
+			s.Collide[i] = append(s.Collide[i], Pick(r, []int{0, 1, 1, 2, 3, 9, 10, 10, 11}))
+		}
+		if r.Chance(1, 3) {
+			// aim the fault at the probes
+			s.Rounds[i].Fault = &xwFault{K: r.Intn(8), O: Pick(r, []string{"fail", "conflict", "crashBefore", "crashAfter"})}
+		}
+	}
+	return s
+}
+
+// c01Run runs a plain XR-world scenario (no scripted candidates).
 func c01Run(s *xwScn) (c01Obs, []Mon) {
-	w := xwNewWorld(*s)
+	cs := c01Scn{xwScn: *s}
+	o, m := c01RunX(&cs)
+	*s = cs.xwScn
+	return o, m
+}
+
+func c01RunX(s *c01Scn) (c01Obs, []Mon) {
+	w := xwNewWorld(s.xwScn)
 	obs := c01Obs{}
+	nm := &c01Namer{}
+	staleReq := s.StaleSel
+	if staleReq == nil {
+		staleReq = s.Stale // replay
+	}
+	staleEff := make([]bool, len(s.Rounds))
+	var prevXR *unstructured.Unstructured // the XR when the previous round started
 	var before map[string]string
 	created := []xwRef{} // composed resources created in the previous round
 	for i := range s.Rounds {
@@ -139,13 +209,45 @@ func c01Run(s *xwScn) (c01Obs, []Mon) {
 		for _, o := range objs0 {
 			had[o.Kind+"/"+o.Name] = true
 		}
+		// the long-lived reconciler/composer of this process, with the scripted suffix source
+		if w.rec == nil || w.recMode != s.Mode {
+			w.rec, w.recMode = c01NewReconciler(w, s.Mode, nm), s.Mode
+		}
+		var plan []int
+		if i < len(s.Collide) {
+			plan = s.Collide[i]
+		}
+		nm.startRound(plan)
+		// a lagging first read of the XR (P&T): the version of the previous round's start, when it
+		// differs in finalizers or references
+		curXR := w.St.Peek(xwXRGVK.GroupKind(), "", xwXRName).DeepCopy()
+		nm.staleXR = nil
+		if s.Mode == "pt" && i < len(staleReq) && staleReq[i] && prevXR != nil {
+			a, _, _ := unstructured.NestedFieldNoCopy(prevXR.Object, "spec", "resourceRefs")
+			b, _, _ := unstructured.NestedFieldNoCopy(curXR.Object, "spec", "resourceRefs")
+			if mustJSON(a) != mustJSON(b) || mustJSON(prevXR.GetFinalizers()) != mustJSON(curXR.GetFinalizers()) {
+				nm.staleXR, staleEff[i] = prevXR, true
+				obs.Stale++
+			}
+		}
+		prevXR = curXR
 		obs.Rounds = append(obs.Rounds, w.xwRunRound(s.Mode, rd, nil))
+		nm.staleXR = nil
+		// every candidate the generator drew, with the resource it was drawn for
+		rd.Hints.Gen = nm.rec
+		obs.Taken += nm.taken
 		created = created[:0]
 		_, objs1, _ := w.view()
 		for _, o := range objs1 {
 			if !had[o.Kind+"/"+o.Name] {
 				created = append(created, xwRef{Kind: o.Kind, Name: o.Name})
 			}
+		}
+	}
+	s.Stale = nil
+	for _, e := range staleEff {
+		if e {
+			s.Stale = staleEff
 		}
 	}
 	after := w.St.Snapshot()
@@ -173,6 +275,20 @@ func c01Run(s *xwScn) (c01Obs, []Mon) {
 }
 
 func c01Cls(s *xwScn, o c01Obs) string {
+	c := c01ClsBase(s, o)
+	switch {
+	case o.Taken >= 10:
+		c += "/taken=10+"
+	case o.Taken > 0:
+		c += "/taken=1-9"
+	}
+	if o.Stale > 0 {
+		c += "/staleXR"
+	}
+	return c
+}
+
+func c01ClsBase(s *xwScn, o c01Obs) string {
 	faults, crashed, errs, missed := 0, 0, 0, 0
 	for i, r := range s.Rounds {
 		if r.Fault != nil {
@@ -194,14 +310,14 @@ func c01Cls(s *xwScn, o c01Obs) string {
 func init() {
 	Register("C01", func(c *Ctx) {
 		for _, raw := range c.Corpus {
-			var s xwScn
+			var s c01Scn
 			if err := json.Unmarshal(raw, &s); err == nil && len(s.Rounds) > 0 {
-				obs, mons := c01Run(&s)
+				obs, mons := c01RunX(&s)
 				c.Emit(s, obs, mons, "corpus")
 			}
 		}
 		for i := 0; i < c.N; i++ {
-			s := c01Gen(c.Rng)
+			s := c01GenX(c.Rng)
 			if c.Tier == "thorough" && i%4 == 0 {
 				// exhaustive single-fault sweep of the first round: every call index x outcome
 				base := s
@@ -209,7 +325,7 @@ func init() {
 				base.Rounds[0].Fault = nil
 				probe := base
 				probe.Rounds = append([]xwRound{}, base.Rounds...)
-				o, _ := c01Run(&probe)
+				o, _ := c01RunX(&probe)
 				// the swept (first) reconcile keeps the cache misses picked in the fault-free probe run;
 				// later reconciles pick theirs in every run (their objects carry fresh random names)
 				base.Rounds[0].Miss, base.Rounds[0].MissSel = probe.Rounds[0].Miss, nil
@@ -219,14 +335,14 @@ func init() {
 						v := base
 						v.Rounds = append([]xwRound{}, base.Rounds...)
 						v.Rounds[0].Fault = &xwFault{K: k, O: oc}
-						obs, mons := c01Run(&v)
-						c.Emit(v, obs, mons, "sweep/"+c01Cls(&v, obs))
+						obs, mons := c01RunX(&v)
+						c.Emit(v, obs, mons, "sweep/"+c01Cls(&v.xwScn, obs))
 					}
 				}
 				continue
 			}
-			obs, mons := c01Run(&s)
-			c.Emit(s, obs, mons, c01Cls(&s, obs))
+			obs, mons := c01RunX(&s)
+			c.Emit(s, obs, mons, c01Cls(&s.xwScn, obs))
 		}
 	})
 }
